@@ -1,6 +1,7 @@
 import Mathlib.Data.Matrix.Mul
 import Mathlib.Data.Matrix.Diagonal
 import Mathlib.Analysis.SpecialFunctions.Pow.Real
+import Mathlib.Algebra.BigOperators.Ring.Finset
 /-!
 # PyGam.Proofs.EigFactor — the eigen-factor used when the Cholesky factorisation breaks down
 
@@ -47,5 +48,52 @@ theorem eigFactor_replaced (A V : Matrix m m ℝ) (w w' : m → ℝ) (hA : A = V
   by_cases h : i = j
   · subst h; simp [diagonal]
   · simp [diagonal, h]
+
+/-! ### block-wise factorization (repair c980deb)
+
+`S + P (+ C)` is block diagonal, one block per term.  Since c980deb the fallback factors each connected block of the
+sparsity pattern on its own and assembles `L` from the per-block factors.  If `A` and `L` are block diagonal with
+respect to a labelling `ℓ` of the indices and every block of `L` factors the corresponding block of `A`
+(`Σ_{k in the block} L k i · L k j = A i j`), then `LᵀL = A`: the factor contract holds for the whole matrix, and the
+cut-off of one block never sees the eigenvalues of another. -/
+section blocks
+variable {κ : Type} [DecidableEq κ]
+
+theorem block_factor_contract {R : Type} [CommRing R] (ℓ : m → κ) (A L : Matrix m m R)
+    (hA : ∀ i j, ℓ i ≠ ℓ j → A i j = 0) (hL : ∀ k i, ℓ k ≠ ℓ i → L k i = 0)
+    (hblock : ∀ i j, ℓ i = ℓ j → ∑ k ∈ Finset.univ.filter (fun k => ℓ k = ℓ i), L k i * L k j = A i j) :
+    Lᵀ * L = A := by
+  ext i j
+  simp only [Matrix.mul_apply, transpose_apply]
+  by_cases hij : ℓ i = ℓ j
+  · rw [← hblock i j hij, Finset.sum_filter]
+    apply Finset.sum_congr rfl
+    intro k _
+    by_cases hk : ℓ k = ℓ i
+    · rw [if_pos hk]
+    · rw [if_neg hk, hL k i hk, zero_mul]
+  · rw [hA i j hij]
+    apply Finset.sum_eq_zero
+    intro k _
+    by_cases hk : ℓ k = ℓ i
+    · have : ℓ k ≠ ℓ j := fun h => hij (hk.symm.trans h)
+      rw [hL k j this, mul_zero]
+    · rw [hL k i hk, zero_mul]
+
+/-- a block of `A` is untouched by what happens in the other blocks: the entries of `LᵀL` inside one block depend on
+the rows and columns of `L` in that block only -/
+theorem block_factor_local {R : Type} [CommRing R] (ℓ : m → κ) (L L' : Matrix m m R)
+    (hL : ∀ k i, ℓ k ≠ ℓ i → L k i = 0) (hL' : ∀ k i, ℓ k ≠ ℓ i → L' k i = 0) (b : κ)
+    (hsame : ∀ k i, ℓ k = b → ℓ i = b → L k i = L' k i) (i j : m) (hi : ℓ i = b) (hj : ℓ j = b) :
+    (Lᵀ * L) i j = (L'ᵀ * L') i j := by
+  simp only [Matrix.mul_apply, transpose_apply]
+  apply Finset.sum_congr rfl
+  intro k _
+  by_cases hk : ℓ k = b
+  · rw [hsame k i hk hi, hsame k j hk hj]
+  · have h1 : ℓ k ≠ ℓ i := fun h => hk (h.trans hi)
+    rw [hL k i h1, hL' k i h1, zero_mul, zero_mul]
+
+end blocks
 
 end PyGam.EigFactor
